@@ -8,6 +8,8 @@ calls (K); then, for every k in 1..K and every fault kind, the run is repeated
 with exactly the k-th call failing:
 
     fail    OSError before the call has any effect
+    perm    the same, raised as PermissionError (an error a caller might
+            single out and swallow)
     torn    half of the bytes are written / copied, then OSError
     intr    the call takes full effect, then KeyboardInterrupt
     assert  (file writes only) half of the bytes are handed to the still
@@ -20,11 +22,22 @@ import shutil
 import tempfile as real_tempfile
 from types import SimpleNamespace
 
-KINDS = ("fail", "torn", "intr", "assert")
+KINDS = ("fail", "torn", "intr", "assert", "perm")
 
 
 class Injected(OSError):
     pass
+
+
+class InjectedPerm(PermissionError):
+    """The 'perm' kind: the call fails like 'fail', but with the specific
+    PermissionError a handler somewhere might single out and swallow."""
+
+
+def _fail(plan, msg):
+    if plan.kind == "perm":
+        raise InjectedPerm(13, msg)
+    raise Injected(msg)
 
 
 class Plan:
@@ -41,7 +54,7 @@ class Plan:
         self.log.append(name)
         if self.k is not None and self.n == self.k:
             self.fired = name
-            return self.kind
+            return "fail" if self.kind == "perm" else self.kind
         return None
 
 
@@ -56,11 +69,11 @@ class FaultyFile:
     def write(self, data):
         kind = self._plan.point("write:" + self._name)
         if kind == "fail":
-            raise Injected("injected: write failed")
+            _fail(self._plan, "injected: write failed")
         if kind == "torn":
             self._f.write(data[:len(data) // 2])
             self._f.flush()
-            raise Injected("injected: torn write")
+            _fail(self._plan, "injected: torn write")
         if kind == "assert":
             self._f.write(data[:len(data) // 2])      # stays buffered
             raise AssertionError("injected: emitter assertion")
@@ -74,7 +87,7 @@ class FaultyFile:
         kind = self._plan.point("close:" + self._name)
         self._f.close()
         if kind in ("fail", "torn", "assert"):
-            raise Injected("injected: close failed")
+            _fail(self._plan, "injected: close failed")
         if kind == "intr":
             raise KeyboardInterrupt()
 
@@ -102,7 +115,7 @@ def patches(plan):
         tag = "%s:%s" % (os.path.basename(str(path)), mode)
         kind = plan.point("open:" + tag)
         if kind in ("fail", "torn"):
-            raise Injected("injected: open failed")
+            _fail(plan, "injected: open failed")
         fobj = builtins.open(path, mode, *args, **kwargs)
         if kind == "intr":
             fobj.close()
@@ -114,7 +127,7 @@ def patches(plan):
     def f_exists(path):
         kind = plan.point("exists:" + os.path.basename(str(path)))
         if kind in ("fail", "torn"):
-            raise Injected("injected: exists failed")
+            _fail(plan, "injected: exists failed")
         res = os.path.exists(path)
         if kind == "intr":
             raise KeyboardInterrupt()
@@ -123,7 +136,7 @@ def patches(plan):
     def f_remove(path):
         kind = plan.point("remove:" + os.path.basename(str(path)))
         if kind in ("fail", "torn"):
-            raise Injected("injected: remove failed")
+            _fail(plan, "injected: remove failed")
         os.remove(path)
         if kind == "intr":
             raise KeyboardInterrupt()
@@ -132,13 +145,13 @@ def patches(plan):
         kind = plan.point("copy2:%s->%s" % (os.path.basename(str(src)),
                                             os.path.basename(str(dst))))
         if kind == "fail":
-            raise Injected("injected: copy failed")
+            _fail(plan, "injected: copy failed")
         if kind == "torn":
             with builtins.open(src, "rb") as fh:
                 data = fh.read()
             with builtins.open(dst, "wb") as fh:
                 fh.write(data[:len(data) // 2])
-            raise Injected("injected: torn copy")
+            _fail(plan, "injected: torn copy")
         shutil.copy2(src, dst, **kwargs)
         if kind == "intr":
             raise KeyboardInterrupt()
@@ -147,11 +160,11 @@ def patches(plan):
     def f_copyfileobj(src, dst, *args):
         kind = plan.point("copyfileobj")
         if kind == "fail":
-            raise Injected("injected: copyfileobj failed")
+            _fail(plan, "injected: copyfileobj failed")
         if kind == "torn":
             data = src.read()
             dst.write(data[:len(data) // 2])
-            raise Injected("injected: torn copyfileobj")
+            _fail(plan, "injected: torn copyfileobj")
         shutil.copyfileobj(src, dst, *args)
         if kind == "intr":
             raise KeyboardInterrupt()
@@ -159,7 +172,7 @@ def patches(plan):
     def f_tempfile(*args, **kwargs):
         kind = plan.point("TemporaryFile")
         if kind in ("fail", "torn"):
-            raise Injected("injected: TemporaryFile failed")
+            _fail(plan, "injected: TemporaryFile failed")
         fobj = real_tempfile.TemporaryFile(*args, **kwargs)
         if kind == "intr":
             fobj.close()
